@@ -1,4 +1,8 @@
-"""C04 - genomic-model predictions are linear, label-preserving and self-consistent; fitted rrBLUP solves its own equations."""
+"""C04 - genomic-model predictions are linear, label-preserving and self-consistent; fitted rrBLUP solves its own equations.
+
+Two case families: ``model`` (a model with given coefficients on one population presented in three input forms, its taxon
+permutation, a marker partition and a call history on the living model object) and ``fit`` (rrBLUP training sets through every
+entry point; a recording wrapper on the module-level solver supplies the ridge parameter)."""
 import numpy
 
 from pbmon import boot  # noqa: F401
@@ -18,6 +22,8 @@ CLAUSES = {
     "C04.stats.bulmer": 4000,      # var_A / var_a, NaN exactly when the genic variance is zero
     "C04.stats.score": 1000,       # R^2
     "C04.stats.counts": 20000,     # facount ... dapoly, nafixed, napoly (exact)
+    "C04.history": 300000,         # results stay valid while the model lives on: unchanged by later calls, no aliasing, updates followed
+    "C04.rrblup.entry": 100,      # fit(objects) == fit_numpy(raw arrays held by the objects), record by record
     "C04.rrblup.trace": 100,       # the model's effects are the solver's output for the training data
     "C04.rrblup.intercept": 150,
     "C04.rrblup.mono": 50,
@@ -32,9 +38,16 @@ RULE = ("model cases: seeded class-based genotype arrays (1-120 taxa incl. 49/98
         "phased matrix, unphased projection and raw dosage array (int8/int64/float64), with and without taxa/taxa_grp/trait labels; "
         "responses for R^2 as array, from_numpy object, or constructor-built object whose location/scale are not the mean/sd "
         "of its rows (raw values with location 0 / scale 1, arbitrary location+scale); "
-        "one taxon permutation and one random marker partition (1-4 parts) per case.  fit cases: 8-120 records x 2-60 markers "
+        "one taxon permutation and one random marker partition (1-4 parts) per case; then a history on the same model object: "
+        "the *_numpy entry points (gebv/gegv/predict/var_A/var_G/var_a/bulmer/score) called 5-6 times with same-shaped inputs of "
+        "different content (one buffer rewritten in place, permutation, allele complement, other dtype), another shape, the first "
+        "input again, all ~150 raw outputs of the case kept and re-judged at the end, aliasing tests, caller overwriting the "
+        "outputs, coefficients replaced (setters / in place) and queried again.  fit cases: 8-120 records x 2-60 markers "
         "(n > p, n barely > p, n <= p; monomorphic and duplicated columns, rare alleles, {-1,0,1} coding) x responses (signal+noise, "
-        "pure noise, near-noiseless, constant trait, 1e6 offset, 1e-3 and 1e4 scale), 1-3 traits, numpy and object entry points.  "
+        "pure noise, near-noiseless, constant trait, 1e6 offset, 1e-3 and 1e4 scale), 1-3 traits; entry points fit_numpy, fit(objects), fit(array, matrix), "
+        "fit(matrix, array); object responses built by from_numpy or the constructor (location 0/scale 1, arbitrary); record labels "
+        "shared by position: unique (sorted / unsorted), replicated names (2-3 records per line, contiguous or scattered, optionally "
+        "identical genotypes per line), one name for all, absent on either or both objects; optional taxa_grp.  "
         "Non-trivial: >= 2 taxa and >= 1 marker; distinct = digest of genotype calls, effects and labels (or training set).")
 ASSUME = [
     "the value carried by a returned breeding-value matrix is its unscale() (stored matrix is centred/scaled by construction)",
@@ -45,6 +58,13 @@ ASSUME = [
     "that take ploidy= get it passed",
     "normal equations are those of the raw polymorphic genotype columns and centred response with ridge = varE/varU as returned "
     "by the module-level solver (recorded through a harness wrapper); 'solves' = relative residual <= 1e-5",
+]
+ASSUME += [
+    "records of a response object and a genotype object handed to fit() correspond by position (the workload always gives both the "
+    "same order; differently ordered label sets are not generated because the property does not say which pairing is meant)",
+    "an output handed to the caller belongs to the caller: it keeps its value while the model is used further and shares no memory "
+    "with the model's coefficient arrays, with the input or with another output (label arrays are exempt: they are passed by reference)",
+    "a model whose coefficient arrays are replaced through the setters or edited in place is the model with the new coefficients",
 ]
 TRUSTED = ["pbmon.oracle.linmodel", "numpy.einsum"]
 
@@ -207,9 +227,40 @@ ROWS = ["gebv", "gegv", "predict", "tbv"]
 POPS = ["var_A", "var_G", "var_a", "bulmer", "score"]
 
 
-def collect(model, F, fname, ploidy, dom_ok, X, Y, has_misc):
+class Held:
+    """An output of the library that the caller keeps while the same model goes on being used."""
+
+    def __init__(self, name, fname, raw):
+        self.name, self.fname, self.raw = name, fname, raw
+        self.isbv = hasattr(raw, "unscale")
+        self.snap = self.value().copy()
+
+    def value(self):
+        return numpy.array(self.raw.unscale() if self.isbv else self.raw)
+
+    def arrays(self):
+        """The ndarray storage behind the output (for aliasing tests and for the caller's later in-place use)."""
+        if self.isbv:
+            return [a for a in (self.raw.mat, self.raw.location, self.raw.scale) if isinstance(a, numpy.ndarray)]
+        return [self.raw] if isinstance(self.raw, numpy.ndarray) else []
+
+    def intact(self):
+        v = self.value()
+        return v.shape == self.snap.shape and bool(numpy.array_equal(v, self.snap, equal_nan=(v.dtype.kind == "f")))
+
+
+def overlaps(a, b):
+    if not (isinstance(a, numpy.ndarray) and isinstance(b, numpy.ndarray)) or a.size == 0 or b.size == 0:
+        return False
+    try:
+        return bool(numpy.shares_memory(a, b, max_work=100000))
+    except Exception:
+        return bool(numpy.may_share_memory(a, b))
+
+
+def collect(model, F, fname, ploidy, dom_ok, X, Y, has_misc, held=None):
     """Call every observable of the model on one input form; returns {name: value | Exception}.  For matrix-valued
-    outputs the value is (unscale(), taxa, taxa_grp, trait)."""
+    outputs the value is (unscale(), taxa, taxa_grp, trait).  The raw returned objects are appended to ``held``."""
     from pybrops.breed.prot.bv.TrueBreedingValue import TrueBreedingValue
     isarr = isinstance(F, numpy.ndarray)
     out = {}
@@ -217,11 +268,22 @@ def collect(model, F, fname, ploidy, dom_ok, X, Y, has_misc):
     def run(name, fn):
         try:
             out[name] = fn()
+            if held is not None and not isinstance(out[name], tuple):
+                held.append(Held(name, fname, out[name]))
         except Exception as e:  # judged by the caller (equivalence policy)
             out[name] = e
 
     def bv(o):
+        if held is not None:
+            held.append(Held(o_name[0], fname, o))
         return (numpy.array(o.unscale(), dtype=float), o.taxa, o.taxa_grp, o.trait)
+
+    o_name = [None]
+    _run = run
+
+    def run(name, fn):  # noqa: F811  (remember which output a breeding-value matrix belongs to)
+        o_name[0] = name
+        _run(name, fn)
 
     kw = {"ploidy": int(ploidy)} if isarr else {}
     run("gebv", lambda: bv(model.gebv(F.copy() if isarr else F)))
@@ -395,9 +457,10 @@ def case_model(ctx, c):
 
     # ---------------- drive every form
     res = {}
+    held = []   # every raw output is kept until the end of the case and re-judged there (C04.history)
     for fname, F in forms.items():
         dom_ok = not (fname == "array" and kind == "AD" and ploidy != 2)
-        res[fname] = collect(model, F, fname, ploidy, dom_ok, X, Yobj if score_ok else None, has_misc)
+        res[fname] = collect(model, F, fname, ploidy, dom_ok, X, Yobj if score_ok else None, has_misc, held)
     names = sorted(set().union(*[set(r) for r in res.values()]))
     for name in names:
         have = {f: res[f][name] for f in res if name in res[f]}
@@ -464,7 +527,7 @@ def case_model(ctx, c):
             Yp = Y[perm]
             if ptform != "array":
                 Yp = mk_pheno(ptform, Y[perm], ptaxa, pgrp, trait, ploc, psc)
-        rp = collect(model, Fp, pform, ploidy, True, X[perm], Yp, has_misc)
+        rp = collect(model, Fp, pform + "/permuted", ploidy, True, X[perm], Yp, has_misc, held)
     except Exception as e:
         ctx.raised("construct permuted genotype matrix", e); rp = {}
     for name, gotp in rp.items():
@@ -542,12 +605,142 @@ def case_model(ctx, c):
             okall = all(fclose(tabparts[nm], numpy.asarray(whole[nm], dtype=float), 1e-12)[0] for nm in TABLES)
             ctx.check("C04.forms.split", okall, defsite(model, "facount"), "allele tables of the parts concatenate to the whole", scls,
                       witness=w, coords=coords)
+    # ---------------- history: one long-lived model queried again and again through the array entry points
+    # same-shaped inputs with different contents (taxon permutation, allele complement, one buffer rewritten in place), a
+    # different shape in between, then the first input again; every result is kept and judged when it is returned and again
+    # after all later calls.
+    hdt = str(g.choice([adt, adt, "float64", "int8"]))
+    m2 = max(1, n // 2)
+    buf = dos.astype(hdt)
+    ident = numpy.arange(n)
+    steps = [("first", dos, buf, False, ident), ("same buffer rewritten in place", dos[perm], buf, True, perm),
+             ("same shape, other population", ploidy - dos, None, False, ident), ("other shape", dos[:m2], None, False, ident[:m2]),
+             ("first again", dos, None, False, ident)]
+    if g.random() < 0.3:
+        steps.insert(3, ("same shape, other dtype", dos[perm], "float64" if hdt != "float64" else "int64", False, perm))
+    hist = []
+
+    def design(D, dt):
+        Z = numpy.asarray(D).astype(dt)
+        if kind == "A":
+            return Z, Z
+        return Z, numpy.concatenate([Z, O.hetind(D, ploidy).astype(Z.dtype)], axis=1)
+
+    for label, D, where, inplace, rows in steps:
+        dt = where if isinstance(where, str) else hdt
+        if inplace:
+            buf[...] = D.astype(hdt)
+            Za = buf
+            Zg = Za if kind == "A" else numpy.concatenate([Za, O.hetind(D, ploidy).astype(Za.dtype)], axis=1)
+        elif where is buf:
+            Za, Zg = design(D, dt)
+            buf = Za
+        else:
+            Za, Zg = design(D, dt)
+        eb = O.marker_part(D, u_a)
+        eg = eb if kind == "A" else O.marker_part(D, u_a, O.hetind(D, ploidy), u_d_eff)
+        Xs = X[rows]
+        calls = [("gebv_numpy", lambda: model.gebv_numpy(Za), eb, O.tol(S)), ("gegv_numpy", lambda: model.gegv_numpy(Zg), eg, O.tol(S))]
+        if not has_misc:
+            calls.append(("predict_numpy", lambda: model.predict_numpy(Xs, Zg.astype(float)), Xs @ beta + eg, O.tol(SX)))
+        if D.shape[0] == n and label != "same shape, other population":   # population summaries of the same population
+            cnt = O.allele_count(D)
+            pfreq = cnt / float(tot)
+            calls += [("var_A_numpy", lambda: model.var_A_numpy(Za), vA, O.tol(S2)),
+                      ("var_G_numpy", lambda: model.var_G_numpy(Zg), vG, O.tol(S2)),
+                      ("var_a_numpy", lambda: model.var_a_numpy(pfreq, ploidy), va, O.tol(S2)),
+                      ("bulmer_numpy", lambda: model.bulmer_numpy(Za, pfreq, ploidy), bul, bultol)]
+            if score_ok and not has_misc:
+                Ys = Y[rows]
+                calls.append(("score_numpy", lambda: model.score_numpy(Ys, Xs, Zg.astype(float)), r2, r2tol))
+        for nm, fn, e, tl in calls:
+            site = defsite(model, nm)
+            try:
+                got = fn()
+            except Exception as ex:
+                ctx.raised(site, ex); continue
+            ok, _ = fclose(got, e, tl)
+            cl = "C04.value" if nm in ("gebv_numpy", "gegv_numpy", "predict_numpy") else (
+                "C04.stats.bulmer" if nm == "bulmer_numpy" else "C04.stats.score" if nm == "score_numpy" else "C04.stats.var")
+            ctx.check(cl, ok, site, "== definition (array entry point, repeated use of one model)", icls_in + "/array",
+                      witness=dict(wit0, output=nm, step=label, dtype=str(Za.dtype), got=brief(got), expected=brief(e)), coords=coords)
+            h = Held(nm, "history:" + label, got)
+            h.inputs = [Za, Zg]
+            hist.append(h)
+    # (1) every result handed out earlier still has the value it had when it was returned
+    params = [("beta", model.beta), ("u_a", model.u_a), ("u_misc", model.u_misc)] + ([("u_d", model.u_d)] if kind == "AD" else [])
+    inputs = [pg.mat, ug.mat, arr, X] + ([Y] if isinstance(Y, numpy.ndarray) else [])
+    for h in held + hist:
+        site = "TrueBreedingValue.estimate" if h.name == "tbv" else defsite(model, h.name)
+        hcls = "array entry point" if h.fname.startswith("history") else ("array" if h.fname == "array" else "genotype matrix")
+        ctx.check("C04.history", h.intact(), site, "result returned earlier is unchanged by later calls on the same model", hcls,
+                  witness=dict(wit0, output=h.name, obtained_in=h.fname, now=brief(h.value()), when_returned=brief(h.snap)), coords=coords)
+        # (2) a result is the caller's: it is not a view of the model's coefficients, of an input, or of another result
+        arrs = h.arrays()
+        if arrs:
+            al = [pn for pn, pa in params for a in arrs if overlaps(a, pa)]
+            ctx.check("C04.history", not al, site, "result shares no memory with the model's coefficient arrays", hcls,
+                      witness=dict(wit0, output=h.name, obtained_in=h.fname, aliases=al), coords=coords)
+            ali = any(overlaps(a, b) for a in arrs for b in inputs + getattr(h, "inputs", []))
+            ctx.check("C04.history", not ali, site, "result shares no memory with the input it was computed from", hcls,
+                      witness=dict(wit0, output=h.name, obtained_in=h.fname), coords=coords)
+    for i, h in enumerate(hist):
+        for h2 in hist[i + 1:]:
+            if h2.name == h.name and any(overlaps(a, b) for a in h.arrays() for b in h2.arrays()):
+                ctx.violation("C04.history", defsite(model, h.name), "two results of the same entry point share memory", "array entry point",
+                              witness=dict(wit0, output=h.name, first=h.fname, second=h2.fname), coords=coords)
+                break
     # the inputs must not have been modified by any of the calls (otherwise the comparisons above are meaningless)
-    unchanged = (numpy.array_equal(pg.mat, mat) and numpy.array_equal(ug.mat, dos) and numpy.array_equal(arr, dos.astype(adt))
-                 and numpy.array_equal(model.u_a, u_a) and numpy.array_equal(model.beta, beta))
-    if not unchanged:
+    def untouched():
+        return (numpy.array_equal(pg.mat, mat) and numpy.array_equal(ug.mat, dos) and numpy.array_equal(arr, dos.astype(adt))
+                and numpy.array_equal(model.u_a, u_a) and numpy.array_equal(model.beta, beta)
+                and (kind == "A" or numpy.array_equal(model.u_d, u_d_eff))
+                and (u_misc is None or numpy.array_equal(model.u_misc, u_misc)))
+    if not untouched():
         ctx.violation("C04.value", type(model).__name__, "model parameters and genotype inputs unchanged by prediction", icls_in,
                       witness=wit0, coords=coords)
+        return
+    # (3) the caller overwrites the results it was given; the model and the inputs are unaffected and answer as before
+    for h in held + hist:
+        for a in h.arrays():
+            if a.flags.writeable and a.size:
+                try:
+                    a[...] = 77 if a.dtype.kind in "iu" else (True if a.dtype.kind == "b" else -12345.678)
+                except Exception:
+                    pass
+    fresh_ok = untouched()
+    try:
+        f1 = model.gebv_numpy(arr.copy()); f2 = numpy.array(model.gebv(pg).unscale()); f3 = model.var_A(ug)
+        fresh_ok = (fresh_ok and fclose(f1, bvpart, O.tol(S))[0] and fclose(f2, exp["gebv"], O.tol(S))[0] and fclose(f3, vA, O.tol(S2))[0])
+    except Exception as ex:
+        ctx.raised("fresh prediction after results were overwritten", ex)
+    ctx.check("C04.history", fresh_ok, defsite(model, "gebv_numpy"),
+              "model, inputs and fresh predictions unaffected when the caller overwrites earlier results", icls_in, witness=wit0, coords=coords)
+    # (4) coefficients replaced on the living model: every later answer follows the current coefficients
+    how = str(g.choice(["setter", "in place"]))
+    u_new = gen_effects(g, str(g.choice(["gauss", "ints", "gauss-zeros", "negative"])), p, t, fixed)
+    b_new = g.normal(size=(q, t)) * 5
+    try:
+        if how == "setter":
+            model.u_a = u_new.copy(); model.beta = b_new.copy()
+        else:
+            model.u_a[...] = u_new; model.beta[...] = b_new
+        e_np = O.marker_part(dos, u_new)
+        e_bv = e_np + O.intercept(b_new)[None, :]
+        Sn = O.value_scale(b_new, u_new, u_d_eff, ploidy)
+        tn = O.allele_tables(u_new, count, n, ploidy)
+        van, _ = O.genic_var(u_new, count, n, ploidy)
+        got = {"gebv_numpy": model.gebv_numpy(arr.copy()), "gebv": numpy.array(model.gebv(pg).unscale()),
+               "var_A": model.var_A(ug), "var_a": model.var_a(pg), "facount": model.facount(pg), "dapoly": model.dapoly(ug)}
+        oks = {"gebv_numpy": fclose(got["gebv_numpy"], e_np, O.tol(Sn))[0], "gebv": fclose(got["gebv"], e_bv, O.tol(Sn))[0],
+               "var_A": fclose(got["var_A"], O.popvar(e_np), O.tol(Sn * Sn))[0], "var_a": fclose(got["var_a"], van, O.tol(Sn * Sn))[0],
+               "facount": exact(got["facount"], tn["facount"]), "dapoly": exact(got["dapoly"], tn["dapoly"])}
+        for nm, ok in oks.items():
+            ctx.check("C04.history", ok, defsite(model, nm), "answers follow the model's current coefficients after an update",
+                      "coefficients replaced through the %s" % ("setters" if how == "setter" else "arrays in place"),
+                      witness=dict(wit0, output=nm, got=brief(got[nm])), coords=coords)
+    except Exception as ex:
+        ctx.raised("prediction after coefficient update", ex)
 
 
 # ---------------------------------------------------------------- fit family
@@ -632,41 +825,98 @@ def case_fit(ctx, c):
     ppoly = int(poly.sum())
     coded012 = zcls != "-1/0/1 coding"
     entry = "numpy"
-    if coded012 and ycls != "constant trait" and g.random() < 0.3:
-        entry = str(g.choice(["objects/unphased", "objects/phased"]))
+    if coded012 and ycls != "constant trait" and g.random() < 0.5:
+        entry = str(g.choice(["objects/unphased", "objects/phased", "objects/unphased", "objects/phased",
+                              "response array + genotype matrix", "response matrix + genotype array"]))
+    # labels of the records when they travel in objects: rows of the two objects correspond by position (shared order)
+    lcls = "-"
+    taxa = None
+    if entry != "numpy":
+        lcls = str(g.choice(["unique names", "unique names, unsorted", "replicated names", "replicated names", "replicated lines",
+                             "one name for all", "no names", "names on genotypes only", "names on responses only"]))
+        if lcls in ("replicated names", "replicated lines"):
+            r = int(g.choice([2, 3]))
+            line = numpy.arange(n) // r
+            if g.random() < 0.6:
+                line = line[g.permutation(n)]          # replicates scattered over the records
+            if lcls == "replicated lines" and len(set(line.tolist())) >= 4:
+                first = {}
+                for i, l in enumerate(line.tolist()):
+                    first.setdefault(l, i)
+                Z = Z[[first[l] for l in line.tolist()]]   # replicated records of a line carry the line's genotype
+                if not numpy.any(Z != Z[0], axis=0).any():
+                    Z[: n // 2, 0] = Z[0, 0] + 1 if Z[0, 0] < 2 else 0
+                poly = numpy.any(Z != Z[0], axis=0); ppoly = int(poly.sum())
+            taxa = numpy.array(["L%03d" % l for l in line], dtype=object)
+        elif lcls == "one name for all":
+            taxa = numpy.array(["same"] * n, dtype=object)
+        elif lcls == "unique names, unsorted":
+            taxa = numpy.array(["r%03d" % i for i in g.permutation(n)], dtype=object)
+        else:
+            taxa = numpy.array(["r%03d" % i for i in range(n)], dtype=object)
+    ptform = str(g.choice(PTFORMS[2:]))
+    grp = g.integers(0, 3, n).astype("int64") if g.random() < 0.3 else None
     zdt = str(g.choice(["int8", "int64", "float64"]))
     trait = None if g.random() < 0.4 else numpy.array(["y%d" % i for i in range(t)], dtype=object)
-    ctx.case("fit:%s/%s/%s/%s" % (regime, zcls, ycls, entry.split("/")[0]), Z, Y, zdt, entry)
+    ctx.case("fit:%s/%s/%s/%s" % (regime, zcls, ycls, entry.split("/")[0]), Z, Y, zdt, entry, lcls, ptform)
     if c % 23 == 0:
         ctx.sample({"family": "fit", "case": c, "nrecords": n, "nmarker": p, "npolymorphic": ppoly, "ntrait": t, "regime": regime,
-                    "genotype_class": zcls, "response_class": ycls, "entry": entry, "Z_head": Z[:4, :8].tolist(), "Y_head": Y[:4].tolist()})
+                    "genotype_class": zcls, "response_class": ycls, "entry": entry, "record_labels": lcls, "response_container": ptform if entry != "numpy" else "array",
+                    "Z_head": Z[:4, :8].tolist(), "Y_head": Y[:4].tolist()})
     Ytrain = Y
     del _REC[:]
     try:
         if entry == "numpy":
             m = rrBLUPModel0.fit_numpy(Y.copy(), None, Z.astype(zdt), trait=trait)
         else:
-            from pybrops.popgen.bvmat.DenseBreedingValueMatrix import DenseBreedingValueMatrix
-            taxa = numpy.array(["r%03d" % i for i in range(n)], dtype=object)
-            pt = DenseBreedingValueMatrix.from_numpy(Y.copy(), taxa=taxa, trait=trait)
-            Ytrain = numpy.array(pt.unscale(), dtype=float)  # what the object hands to the model as training response
-            if entry == "objects/unphased":
-                gt = mk_unphased(Z, 2, taxa, None, {})
+            ytaxa = None if lcls in ("no names", "names on genotypes only") else taxa
+            ztaxa = None if lcls in ("no names", "names on responses only") else taxa
+            if entry == "response array + genotype matrix":
+                pt = Y.copy()
             else:
+                loc = g.normal(size=t) + float(Y.mean()); sc = g.uniform(0.5, 3.0, t) * (float(Y.std()) + 1e-6)
+                pt = mk_pheno(ptform, Y, ytaxa, None if ytaxa is None else grp, trait, loc, sc)
+                Ytrain = numpy.array(pt.unscale(), dtype=float)  # what the object hands to the model as training response
+            if entry == "response matrix + genotype array":
+                gt = Z.astype(zdt)
+            elif entry == "objects/phased" or (entry.startswith("response array") and g.random() < 0.5):
                 ph = numpy.zeros((2, n, p), dtype="int8")
                 ph[0] = Z >= 1; ph[1] = Z >= 2
-                gt = mk_phased(ph, taxa, None, {})
+                gt = mk_phased(ph, ztaxa, None if ztaxa is None else grp, {})
+            else:
+                gt = mk_unphased(Z, 2, ztaxa, None if ztaxa is None else grp, {})
             m = rrBLUPModel0.fit(pt, None, gt, trait=trait)
     except Exception as e:
         ctx.raised("rrBLUPModel0.fit[%s]" % ycls, e)
         return
     rec = list(_REC)
     ctx.hook("rrBLUP_ML0", len(rec))
+    ctx.check("C04.labels", same(m.trait, trait), "rrBLUPModel0.fit" if entry != "numpy" else "rrBLUPModel0.fit_numpy",
+              "fitted model carries the trait labels it was given", "trait labels %s" % ("absent" if trait is None else "present"),
+              witness={"case": c, "got": brief(m.trait), "trait": brief(trait)}, coords=coords)
+    if entry != "numpy":
+        # the object entry point is the array entry point applied to the arrays the objects hold, record by record
+        del _REC[:]
+        try:
+            mref = rrBLUPModel0.fit_numpy(Ytrain.copy(), None, Z.astype("int8"), trait=trait)
+            ctx.hook("rrBLUP_ML0", len(_REC))
+            sy = float(numpy.abs(Ytrain).max())
+            okb, _ = fclose(m.beta, mref.beta, O.tol(sy))
+            oku, _ = fclose(m.u_a, mref.u_a, O.tol(max(float(numpy.abs(mref.u_a).max()), 1e-300)))
+            ecl = "%s/%s" % (entry.split("/")[0] if entry.startswith("objects") else entry, lcls)
+            ctx.check("C04.rrblup.entry", okb, "rrBLUPModel0.fit", "intercept == that of fit_numpy on the same records", ecl,
+                      witness={"case": c, "nrecords": n, "entry": entry, "labels": lcls, "container": ptform, "got": brief(m.beta),
+                               "fit_numpy": brief(mref.beta), "taxa": brief(taxa)}, coords=coords)
+            ctx.check("C04.rrblup.entry", oku, "rrBLUPModel0.fit", "marker effects == those of fit_numpy on the same records", ecl,
+                      witness={"case": c, "nrecords": n, "entry": entry, "labels": lcls, "container": ptform, "got": brief(m.u_a),
+                               "fit_numpy": brief(mref.u_a), "taxa": brief(taxa)}, coords=coords)
+        except Exception as e:
+            ctx.raised("rrBLUPModel0.fit_numpy[reference for object entry]", e)
     rcls = "n > polymorphic markers" if n > ppoly else "n <= polymorphic markers"
     scls = "small response scale" if ycls == "scale 1e-3" else "unit or larger response scale"
-    ecls = "numpy entry point" if entry == "numpy" else "object entry point"
+    ecls = "numpy entry point" if entry == "numpy" else "object entry point/%s" % lcls
     wit0 = {"case": c, "nrecords": n, "nmarker": p, "npolymorphic": ppoly, "ntrait": t, "genotype_class": zcls,
-            "response_class": ycls, "entry": entry, "dtype": zdt}
+            "response_class": ycls, "entry": entry, "record_labels": lcls, "dtype": zdt}
     site = "rrBLUPModel0.fit_numpy"
     beta = numpy.asarray(m.beta, dtype=float); ua = numpy.asarray(m.u_a, dtype=float)
     shape_ok = beta.shape == (1, t) and ua.shape == (p, t)
@@ -674,7 +924,7 @@ def case_fit(ctx, c):
     trace_ok = shape_ok and len(rec) == t and all(
         numpy.array_equal(rec[i][0], Ytrain[:, i]) and numpy.array_equal(rec[i][1], Zp)
         and numpy.array_equal(numpy.asarray(rec[i][2]["uhat"], dtype=float), ua[poly, i]) for i in range(t))
-    ctx.check("C04.rrblup.trace", trace_ok, site, "model effects are the solver's output for the training columns", "any",
+    ctx.check("C04.rrblup.trace", trace_ok, site, "model effects are the solver's output for the training columns", ecls,
               witness=dict(wit0, beta_shape=list(beta.shape), u_a_shape=list(ua.shape), solver_calls=len(rec)), coords=coords)
     if not shape_ok:
         return
